@@ -75,6 +75,10 @@ pub enum NativeSpec {
     Wrap(usize),
     /// calls the first argument with the second one, returns the table [result, second argument]
     Keep,
+    /// calls the first argument with the second one; a failure of the callee is swallowed (nil)
+    Try,
+    /// calls the first argument without arguments and then calls its result with the second argument
+    Chain2,
     /// returns the concatenation of the textual forms (allocates a string)
     Concat,
 }
@@ -1203,6 +1207,8 @@ impl<'a> Interp<'a> {
             NativeSpec::Pair => 2,
             NativeSpec::Wrap(n) => *n,
             NativeSpec::Keep => 2,
+            NativeSpec::Try => 2,
+            NativeSpec::Chain2 => 2,
             NativeSpec::Concat => 2,
         };
         if args.len() != want {
@@ -1255,6 +1261,39 @@ impl<'a> Interp<'a> {
                 }
                 Ok(t)
             }
+            NativeSpec::Chain2 => {
+                let f = args[0].clone();
+                self.feat("native-reenters-script");
+                self.enter(1)?;
+                let r = self.call_value(&f, vec![], at, None);
+                self.depth -= 1;
+                let wrap = |me: &Self, e: Stop| match e {
+                    Stop::Error { kind, at: _, chain: _ } => Stop::Error { kind: format!("TaskFailure[{name}:{kind}]"), at: at.clone(), chain: me.chain.iter().rev().cloned().collect() },
+                    other => other,
+                };
+                let c = match r {
+                    Ok(c) => c,
+                    Err(e) => return Err(wrap(self, e)),
+                };
+                self.enter(1)?;
+                let r2 = self.call_value(&c, vec![args[1].clone()], at, None);
+                self.depth -= 1;
+                match r2 {
+                    Ok(v) => Ok(v),
+                    Err(e) => Err(wrap(self, e)),
+                }
+            }
+            NativeSpec::Try => {
+                let f = args[0].clone();
+                self.feat("native-reenters-script");
+                self.enter(1)?;
+                let r = self.call_value(&f, vec![args[1].clone()], at, None);
+                self.depth -= 1;
+                match r {
+                    Err(Stop::Error { .. }) => Ok(RV::Nil),
+                    other => other,
+                }
+            }
             NativeSpec::Keep => {
                 let f = args[0].clone();
                 self.feat("native-reenters-script");
@@ -1282,6 +1321,7 @@ impl<'a> Interp<'a> {
     }
 
     // ------------------------------------------------------------ standard library specification (C09)
+
 
     fn call_std(&mut self, name: &'static str, args: Vec<RV>, call_site: Option<Loc>) -> R<RV> {
         // parameter k of n receives argument n-1-k
@@ -1401,6 +1441,7 @@ impl<'a> Interp<'a> {
                 }
                 let mut best = 0usize;
                 let mut best_key = RV::Nil;
+                let mut all_keys: Vec<RV> = Vec::new();
                 for (j, (k, v)) in entries.iter().enumerate() {
                     let key = match &kf {
                         Some(f) => self.key_fn(if less { "__min" } else { "__max" }, f, k, v, at)?,
@@ -1410,16 +1451,22 @@ impl<'a> Interp<'a> {
                         return Err(Stop::Unspecified("function value as ordering key".into()));
                     }
                     if j == 0 {
-                        best_key = key;
+                        best_key = key.clone();
+                        all_keys.push(key);
                         continue;
                     }
                     let o = rv_cmp(&key, &best_key);
                     if (less && o == Ord3::Less) || (!less && o == Ord3::Greater) {
                         best = j;
-                        best_key = key;
-                    } else if o == Ord3::Unordered {
-                        return Err(Stop::Unspecified("incomparable ordering keys".into()));
+                        best_key = key.clone();
                     }
+                    all_keys.push(key);
+                }
+                // incomparable keys (two different strings of one length, nil with a string, ...) count as ties when
+                // "neither smaller nor greater" is an equivalence on these keys: then the smallest / largest class and
+                // its first entry are well defined. Otherwise the statement does not say what the extreme is.
+                if !weak_order(&all_keys) {
+                    return Err(Stop::Unspecified("incomparable ordering keys".into()));
                 }
                 let (k, v) = entries[best].clone();
                 Ok(row(k, v))
@@ -1439,13 +1486,9 @@ impl<'a> Interp<'a> {
                     }
                     keyed.push((key, k.clone(), v.clone()));
                 }
-                // the order must be total on the keys, otherwise "ascending" has no unique meaning
-                for a in 0..keyed.len() {
-                    for b in (a + 1)..keyed.len() {
-                        if rv_cmp(&keyed[a].0, &keyed[b].0) == Ord3::Unordered {
-                            return Err(Stop::Unspecified("incomparable ordering keys".into()));
-                        }
-                    }
+                // the order must be a weak order on the keys (incomparable = tie), otherwise "ascending" has no unique meaning
+                if !weak_order(&keyed.iter().map(|e| e.0.clone()).collect::<Vec<_>>()) {
+                    return Err(Stop::Unspecified("incomparable ordering keys".into()));
                 }
                 // stable insertion sort, ascending
                 let mut out: Vec<(RV, RV, RV)> = Vec::new();
@@ -1479,4 +1522,45 @@ impl<'a> Interp<'a> {
             _ => Err(Stop::Unspecified(format!("unknown library function {name}"))),
         }
     }
+}
+
+
+/// true when "neither less nor greater" is an equivalence relation on these keys that is compatible with the order
+/// (a strict weak order): ties, including incomparable pairs, then form classes that are totally ordered
+pub fn weak_order(keys: &[RV]) -> bool {
+    let n = keys.len();
+    let mut any_unordered = false;
+    let mut rel: Vec<Vec<i8>> = vec![vec![0; n]; n];
+    for a in 0..n {
+        for b in 0..n {
+            rel[a][b] = match rv_cmp(&keys[a], &keys[b]) {
+                Ord3::Less => -1,
+                Ord3::Greater => 1,
+                Ord3::Equal => 0,
+                Ord3::Unordered => {
+                    any_unordered = true;
+                    0
+                }
+            };
+        }
+    }
+    if !any_unordered {
+        return true;
+    }
+    for a in 0..n {
+        for b in 0..n {
+            if rel[a][b] != -rel[b][a] {
+                return false;
+            }
+            if rel[a][b] == 0 {
+                // tied elements relate to every third element in the same way
+                for c in 0..n {
+                    if rel[a][c] != rel[b][c] {
+                        return false;
+                    }
+                }
+            }
+        }
+    }
+    true
 }
